@@ -38,9 +38,11 @@ CHECKS["C17"] = dict(
           "meeting PartsOK (faces grouped by size, every face in a slice) the scatter/gather loop of "
           "_apply_node_to_face_aggregation_numpy equals, face by face, `red` over exactly that face's corner nodes; "
           "agg_no_padding (the gathered indices are the real corners, never FILL, on any standard-form table), agg_edge_eq, "
-          "agg_leading (lifts to any rank), agg_rejects (dispatch decision table). PartsOK is evaluated BY LEAN on the "
-          "partitions the real get_face_node_partitions returns for every generated case (partsOf_ok for every argsort "
-          "tie-breaking is not yet proved: partial). The model loop is run by the driver with exact integer reductions and must "
+          "agg_leading (lifts to any rank), agg_rejects (dispatch decision table). parts_ok_any_argsort / agg_face_eq_any_argsort: the "
+          "partition data computed as get_face_node_partitions does (np.unique sizes, cumulative counts) meet PartsOK for EVERY "
+          "permutation that sorts the face sizes, i.e. for any argsort tie-breaking, so the end-to-end statement has no run-time "
+          "hypothesis left except that argsort sorts (SortsBy, evaluated BY LEAN on the real argsort output of every generated case, "
+          "together with PartsOK on the real partitions). The model loop is run by the driver with exact integer reductions and must "
           "equal the implementation; all ten reductions are compared with NumPy's reduction over the element's own nodes."),
     note=_TB + "Modelled, not verified: NumPy fancy indexing and the reductions themselves (parameters), np.argsort/np.unique/"
          "np.cumsum inside get_face_node_partitions (validated per case by the Lean predicate PartsOK).",
